@@ -334,6 +334,54 @@ func c01Worker(c *core.Collector, x *Ctx) {
 		c.Count("special_count_sweep_cases", 1)
 	})
 	c.Floor("special_count_sweep_cases", 1000)
+	// long run: ONE decoded header object re-used for 70 000 consecutive Encode calls (serials across the wrap, bodies of all
+	// classes): state that an encoder might keep between calls (pooled buffers, counters, cached escapes) gets a long history
+	for hv := 0; hv < 2; hv++ {
+		r := core.NewRand(c.Seed, "c01long", uint64(hv))
+		src, _ := c01MakeSrc(r, hv == 1, false, 3)
+		sf, ok := ref.Validate(src)
+		m := jt808.NewJTMessage()
+		if !ok || m.Decode(src) != nil {
+			continue
+		}
+		n := c.N(70000, 140000)
+		var held [][]byte // frames of the recent past are re-checked later: an encoder must not hand out memory it rewrites
+		var heldWant []*ref.Frame
+		for i := 0; i < n; i++ {
+			l := r.Intn(40)
+			if i%97 == 0 {
+				l = core.Pick(r, []int{0, 1, 255, 256, 257, 511, 512, 1000, 1022, 1023})
+			}
+			body := c01Body(r, l, r.Intn(len(c01Classes)))
+			ps := uint16(i + 65000)
+			m.Header.ReplyID = 0x8001
+			m.Header.PlatformSerialNumber = ps
+			var out []byte
+			cs := c01Case{Kind: "c01", Src: core.Hex(src), ReplyID: 0x8001, PSerial: ps, Body: core.Hex(body), Class: "long-run"}
+			if guard(c, func() any { return cs }, func() { out = m.Header.Encode(body) }) {
+				break
+			}
+			c.Eval()
+			f, ok := ref.Validate(out)
+			if !ok || f.ID != 0x8001 || f.Serial != ps || !bytes.Equal(f.Body, body) || !bytes.Equal(f.BCD, sf.BCD) || f.V2019 != sf.V2019 {
+				c.Violate("roundtrip|long run on one header object: frame does not decode to what was encoded", fmt.Sprintf("call %d of the run", i), cs)
+				break
+			}
+			if i%64 == 0 {
+				held = append(held, out)
+				heldWant = append(heldWant, f)
+				if len(held) > 40 {
+					old, want := held[0], heldWant[0]
+					held, heldWant = held[1:], heldWant[1:]
+					if g, ok := ref.Validate(old); !ok || g.Serial != want.Serial || !bytes.Equal(g.Body, want.Body) {
+						c.Violate("roundtrip|a frame returned by Encode changed after later Encode calls", fmt.Sprintf("frame of call %d re-checked at call %d", i-40*64, i), cs)
+						break
+					}
+				}
+			}
+		}
+		c.Count("long_run_encodes_on_one_header", int64(n))
+	}
 	// exhaustive: all bodies of length <= 3 over the 5-symbol alphabet, each header variant
 	alpha := []byte{0x7e, 0x7d, 0x01, 0x02, 0x00}
 	var small [][]byte
